@@ -415,7 +415,12 @@ struct RecSpec {
     msg: String,
     recursive: bool,
     inner_target: String, // target of the record the Display implementation logs
+    respec: bool,         // while the record is being formatted another thread reconfigures the logger (set_new_spec)
 }
+
+/// handle and start-up specification for the reconfiguring helper thread of `respec` records
+static RESPEC: Mutex<Option<(LoggerHandle, LogSpecification)>> = Mutex::new(None);
+static RESPEC_JOIN: Mutex<Option<std::thread::JoinHandle<()>>> = Mutex::new(None);
 
 thread_local! {
     static QUIET: Cell<bool> = const { Cell::new(false) };
@@ -434,6 +439,7 @@ fn inner_spec(outer: &RecSpec, k: u32) -> RecSpec {
         msg: format!("inner record {k}"),
         recursive: false,
         inner_target: String::new(),
+        respec: false,
     }
 }
 
@@ -446,6 +452,16 @@ impl fmt::Display for Disp<'_> {
                 c.set(c.get() + 1);
                 c.get()
             });
+            if self.0.respec {
+                // another thread calls set_new_spec (with the specification that is active anyway) while this record is
+                // being formatted; the inner record is logged when that call has had ample time to start
+                let hs = RESPEC.lock().unwrap().clone();
+                if let Some((hd, spec)) = hs {
+                    let j = std::thread::spawn(move || hd.set_new_spec(spec));
+                    *RESPEC_JOIN.lock().unwrap() = Some(j);
+                    std::thread::sleep(Duration::from_millis(40));
+                }
+            }
             let lg = LOGGER.with(|l| l.borrow().clone());
             if let Some(lg) = lg {
                 let inner = inner_spec(self.0, k);
@@ -1047,6 +1063,7 @@ fn run_scenario(sc: &Value, env: &mut Env) -> usize {
         *g = handle.clone();
     }
     LOGGER.with(|l| *l.borrow_mut() = logger.clone());
+    *RESPEC.lock().unwrap() = handle.clone().map(|hd| (hd, spec_of(gi(spec0, "dflt", 3), gi(spec0, "m", -1))));
     let tname = std::thread::current()
         .name()
         .map(|s| s.to_string())
@@ -1189,6 +1206,7 @@ fn run_scenario(sc: &Value, env: &mut Env) -> usize {
                     kvs: kvs.clone(),
                     msg: msg.clone(),
                     recursive: gb(&st, "rec", false),
+                    respec: gb(&st, "respec", false),
                     inner_target: if ibrace {
                         format!("{{{}}}", itoks.join(","))
                     } else {
@@ -1230,6 +1248,9 @@ fn run_scenario(sc: &Value, env: &mut Env) -> usize {
                         Err(e) => format!("panic:{}", panic_msg(e)),
                     },
                 };
+                if let Some(j) = RESPEC_JOIN.lock().unwrap().take() {
+                    let _ = j.join();
+                }
                 hh.autotick.store(0, Ordering::SeqCst);
                 let reads_after = hh.get_clock();
                 let _ = catch_unwind(AssertUnwindSafe(|| {
@@ -1417,6 +1438,7 @@ fn run_scenario(sc: &Value, env: &mut Env) -> usize {
         emit(env, ev);
     }
     // ---- end of scenario: shut down, report what arrived outside of any Log call
+    *RESPEC.lock().unwrap() = None;
     LOGGER.with(|l| *l.borrow_mut() = None);
     let r = catch_unwind(AssertUnwindSafe(|| {
         if let Some(hd) = &handle {
